@@ -8,3 +8,4 @@ from . import iterators  # noqa: F401
 from . import rank  # noqa: F401
 from . import split  # noqa: F401
 from . import format  # noqa: F401
+from . import intersect  # noqa: F401
